@@ -28,6 +28,13 @@ namespace bloch::runtime {
     static std::mt19937 rng{std::random_device{}()};
     // TODO(REFACTOR): inject RNG via a Strategy/adapter so simulator is
     // deterministic under test and replaceable by other random sources.
+#ifdef BLOCH_VERIF
+    void QasmSimulator::verifSeedRng(unsigned long long seed) {
+        std::seed_seq seq{static_cast<unsigned>(seed & 0xffffffffULL),
+                          static_cast<unsigned>(seed >> 32)};
+        rng.seed(seq);
+    }
+#endif
 
     int QasmSimulator::allocateQubit() {
         // Grow the state by a factor of two, keeping existing amplitudes
@@ -208,6 +215,9 @@ namespace bloch::runtime {
         std::uniform_real_distribution<double> dist(0.0, 1.0);
         double r = dist(rng);
         int res = r < p1 ? 1 : 0;
+#ifdef BLOCH_VERIF
+        m_verifOutcomes.push_back({'m', q, res});
+#endif
         double norm = std::sqrt(res ? p1 : 1 - p1);
         for (size_t i = 0; i < m_state.size(); ++i) {
             if (((i & bit) ? 1 : 0) != res)
